@@ -67,7 +67,11 @@ def _run(case):
         if op[0] == "req":
             _, sd, o, kind = op
             res = []
-            d = getattr(ends[sd], kind)(OPT_BYTES[o])
+            try:
+                d = getattr(ends[sd], kind)(OPT_BYTES[o])
+            except Exception as e:
+                out.append("!" + type(e).__name__)
+                continue
             if d.called:
                 d.addErrback(lambda f: res.append(f.type.__name__))
                 out.append({"AlreadyNegotiating": "AN", "AlreadyEnabled": "AE", "AlreadyDisabled": "AD"}.get(
@@ -90,6 +94,8 @@ def _run(case):
                 ends[to].dataReceived(data)
             except AssertionError:
                 log.append("!A")
+            except Exception as e:                      # anything else a handler raises is an observation too
+                log.append("!" + type(e).__name__)
             out.append(f"{name}{o}:" + ",".join(log))
     nopt = len(case["pa"])
     fin = ""
@@ -115,8 +121,10 @@ def oracle(case, obs):
     steps = body.split(" ") if body else []
     issued, fired = [], []
     for k, (op, st) in enumerate(zip(case["ops"], steps)):
-        if "!A" in st:
+        if "!A" in st.split(":")[-1].split(",") or st == "!A":
             return Failure(case, f"op {k} {op}: an assertion inside a negotiation handler failed ({st})", "assertion-reached")
+        if "!" in st:
+            return Failure(case, f"op {k} {op}: a negotiation handler raised ({st})", "handler-raised")
         if st.startswith("?") or "=?" in st:
             return Failure(case, f"op {k} {op}: unexpected request result {st}", "unexpected-result")
         if op[0] == "req" and st.startswith("I"):
